@@ -2,6 +2,7 @@
 Monitor samples equal the packets waiting or in transmission."""
 from harness import sched as S
 from mc import explore
+from mc.explore import Result
 
 PROPERTY = "C12"
 CLAUSES = ["C12.noraise", "C12.once", "C12.time", "C12.fifo", "C12.counters", "C12.inservice", "C12.monitor"]
@@ -50,6 +51,8 @@ def plan(tier, seed):
             cfgs.append(dict(sched=kind, table=tabs[0], rate=(8000 if kind == "DRR" else 8), flows=[0, 1],
                              sizes=([1000, 2000] if kind == "DRR" else [1, 2]), N=3 if quick else 4,
                              gaps=["S", "N", 1, 2], order=0, map="id", mon=mon))
+        cfgs.append(dict(sched=kind, table=tabs[0], rate=(8000 if kind == "DRR" else 8), flows=[0, 1],
+                         sizes=([1000, 2000] if kind == "DRR" else [1, 2]), N=3, gaps=["S", 1, 2], order=0, map="id", noout=1))
         # flow ids above the small-integer cache: equal ids are not identical objects
         for mon in (None, "excl"):
             c = dict(sched=kind, table=[[1000, tabs[0][0][1]], [1001, tabs[0][1][1]]], rate=(8000 if kind == "DRR" else 8), flows=[1000, 1001],
@@ -128,6 +131,20 @@ def execute(ch, cfg):
         res.digest = (len(run.net.deps), run.error)
         res.nontrivial = True
         S.check_common(run, res, "C12")
+        return res
+    if cfg.get("noout"):
+        # a scheduler without a next hop: its counters still say what is waiting or in transmission - nothing, in the end
+        run = S.SchedRun(ch, cfg, watch_counters=False)
+        res = Result()
+        res.digest = (tuple((a.t, a.flow, a.size) for a in run.net.arrs), run.error)
+        res.nontrivial = len(run.net.arrs) >= 2
+        res.ev("C12.noraise"); res.ev("C12.counters")
+        s = run.sched
+        if run.error:
+            res.bad("C12.noraise", "%s(no-next-hop):%s@%s" % (cfg["sched"], run.error[0], run.error[1]), run.error)
+        elif any(s.size(f) != 0 or s.byte_size(f) != 0 for f in cfg["flows"]) or s.total_packets != 0:
+            res.bad("C12.counters", "%s(no-next-hop):counters-not-drained-when-everything-was-transmitted" % cfg["sched"],
+                    "sizes %r bytes %r total %r after %d arrivals" % ([s.size(f) for f in cfg["flows"]], [s.byte_size(f) for f in cfg["flows"]], s.total_packets, len(run.net.arrs)))
         return res
     run = S.SchedRun(ch, cfg)
     res = S.new_result(run)
